@@ -28,6 +28,7 @@ type CheckSpec struct {
 	// ExtraPrefixes: harnesses of other properties whose panic obligations also count here
 	ExtraPrefixes []string `json:"extra_prefixes"`
 	TimeoutMs     int      `json:"timeout_ms"`
+	Workers       int      `json:"workers"`
 }
 
 type KnownFinding struct {
@@ -171,6 +172,9 @@ func cmdCheck(args []string) int {
 		return 0
 	}
 	jobs := harnessJobs(fns)
+	if spec.Workers > 0 && spec.Workers < *workers {
+		*workers = spec.Workers // memory-heavy harnesses: fewer engines and solvers at a time
+	}
 	reps := runJobs(ld, jobs, cfg, *workers)
 	sort.Slice(reps, func(i, j int) bool { return reps[i].Name < reps[j].Name })
 	if *verbose {
